@@ -66,6 +66,9 @@ struct State {
 	max_spin_rounds: usize,
 	divergence: Option<String>,
 	record_sites: bool,
+	soft_yield: Option<(&'static str, usize)>,
+	soft_count: usize,
+	soft_thread: Option<usize>,
 }
 
 static ST: Mutex<Option<State>> = Mutex::new(None);
@@ -193,6 +196,10 @@ fn decide(st: &mut State, me: Option<usize>) {
 			}
 		}
 	}
+	if st.soft_thread.is_some() && st.soft_thread != Some(chosen) {
+		st.soft_thread = None;
+		st.soft_count = 0;
+	}
 	st.current = Some(chosen);
 	CV.notify_all();
 }
@@ -233,7 +240,24 @@ pub fn sched_hook(ev: Event) {
 			let me = match TID.with(|t| t.get()) {
 				Some(me) => me,
 				None => {
-					// an unknown thread: adopt it if kira announced a spawn, otherwise it is not ours
+					// an unknown thread: adopt it if kira announced a spawn, otherwise it is not ours.
+					// A decoder thread may reach its first gate before its spawner has announced it: it waits.
+					if site == "decoder.gate" {
+						let t0 = Instant::now();
+						loop {
+							let st = g.as_mut().unwrap();
+							if st.registered < st.spawned || st.aborting.is_some() || t0.elapsed() > Duration::from_secs(10) {
+								break;
+							}
+							let (ng, _) = CV.wait_timeout(g, Duration::from_millis(5)).unwrap_or_else(|e| e.into_inner());
+							g = ng;
+							if g.is_none() {
+								DETACHED.with(|d| d.set(true));
+								return;
+							}
+						}
+					}
+					let st = g.as_mut().unwrap();
 					if st.registered < st.spawned {
 						st.registered += 1;
 						st.threads.push(TInfo {
@@ -256,7 +280,21 @@ pub fn sched_hook(ev: Event) {
 				DETACHED.with(|d| d.set(true));
 				return;
 			}
-			let is_yield = site.starts_with("yield:");
+			let mut is_yield = site.starts_with("yield:");
+			if let Some((ysite, n)) = st.soft_yield {
+				if site == ysite {
+					if st.soft_thread == Some(me) {
+						st.soft_count += 1;
+					} else {
+						st.soft_thread = Some(me);
+						st.soft_count = 1;
+					}
+					if st.soft_count > n {
+						is_yield = true;
+						st.soft_count = 0;
+					}
+				}
+			}
 			if !is_yield && !(st.filter)(site) {
 				return;
 			}
@@ -334,6 +372,9 @@ pub struct Config {
 	pub horizon: usize,
 	pub max_spin_rounds: usize,
 	pub record_sites: bool,
+	/// fairness: after a thread passed this site `n` times in a row without any other thread running, the site
+	/// counts as a yield (the thread is disabled until another thread has taken a step)
+	pub soft_yield: Option<(&'static str, usize)>,
 }
 
 impl Default for Config {
@@ -343,6 +384,7 @@ impl Default for Config {
 			horizon: 4000,
 			max_spin_rounds: 24,
 			record_sites: false,
+			soft_yield: None,
 		}
 	}
 }
@@ -372,6 +414,9 @@ impl Exec {
 			max_spin_rounds: cfg.max_spin_rounds,
 			divergence: None,
 			record_sites: cfg.record_sites,
+			soft_yield: cfg.soft_yield,
+			soft_count: 0,
+			soft_thread: None,
 		});
 		PANICS.lock().unwrap_or_else(|e| e.into_inner()).clear();
 		Exec { handles: vec![] }
@@ -472,6 +517,13 @@ impl Exec {
 // ---------------------------------------------------------------------------------------------
 // exploration
 
+static STOP: std::sync::atomic::AtomicBool = std::sync::atomic::AtomicBool::new(false);
+
+/// ask the running exploration to stop after the current schedule (used when a harness leaks threads on every run)
+pub fn request_stop() {
+	STOP.store(true, std::sync::atomic::Ordering::SeqCst);
+}
+
 pub struct ExploreStats {
 	pub schedules: u64,
 	pub max_points: usize,
@@ -501,7 +553,12 @@ pub fn explore<O>(
 		error: None,
 	};
 	let mut stack: Vec<Vec<u8>> = vec![vec![]];
+	STOP.store(false, std::sync::atomic::Ordering::SeqCst);
 	while let Some(prefix) = stack.pop() {
+		if STOP.load(std::sync::atomic::Ordering::SeqCst) {
+			stats.capped = true;
+			break;
+		}
 		if stats.schedules >= max_schedules {
 			stats.capped = true;
 			break;
